@@ -199,9 +199,23 @@ def gen_tree(rng, depth, max_digits=12, max_exp=30, ops="+-*/^", zero_bias=0.08)
     if max_digits >= 6 and rng.random() < 0.015 and "*" in ops:
         # two integers whose product straddles a machine-word boundary (2^63, 2^64, 2^127, 2^128)
         from . import boundary as B
-        a, b = B.big_pair(rng)
         sa, sb = rng.choice([1, 1, -1]), rng.choice([1, 1, -1])
-        return ("bin", "*", ("lit", str(sa * a), Fraction(sa * a)), ("lit", str(sb * b), Fraction(sb * b)))
+        r = rng.random()
+        if r < 0.4:
+            a, b = B.big_pair(rng)
+            return ("bin", "*", ("lit", str(sa * a), Fraction(sa * a)), ("lit", str(sb * b), Fraction(sb * b)))
+        if r < 0.85 or "^" not in ops:
+            # sums, differences and quotients of two boundary integers (carry out of / borrow into the top word)
+            a, b = B.integers(rng), B.integers(rng)
+            op2 = rng.choice([o for o in "+-/*" if o in ops])
+            if op2 == "/" and b == 0:
+                b = 1
+            return ("bin", op2, ("lit", str(sa * a), Fraction(sa * a)), ("lit", str(sb * b), Fraction(sb * b)))
+        # a power that lands on a word boundary: (2^32)^2, (2^16 + 1)^4, (10^5)^4 ...
+        n = rng.choice([2, 2, 3, 4, -2])
+        a = rng.choice([2 ** (64 // abs(n)), 2 ** (128 // abs(n)), 2 ** (32 // abs(n)), 10 ** rng.randint(3, 10)]) + rng.randint(-2, 2)
+        a = max(2, a)
+        return ("bin", "^", ("lit", str(sa * a), Fraction(sa * a)), int_lit(n))
     left = gen_tree(rng, depth - 1, max_digits, max_exp, ops, zero_bias)
     if op == "^":
         right = gen_exponent(rng, depth - 1)
